@@ -22,6 +22,26 @@ def gen_base(seed, i):
         from . import c19
         sc, _ = c19.gen_scenario(seed, 4 * i)      # (4*i is never in c19's own evict/restart family)
         return sc["models"][0], {}, sc["ops"], rng
+    if i % 12 == 4:
+        # the process env is written at run time, over a value the model declares; the process is dropped from the cache, and a tick (the refill of
+        # the cache from the store) may come before the client's next action
+        nsteps = rng.range(2, 3)
+        steps = []
+        for j in range(1, nsteps + 1):
+            acts = []
+            if rng.chance(2, 3):
+                acts.append({"id": f"m{j}", "uses": gen.CODE, "params": f'$env.stage = "st{j}"; $env.n{j} = {j * 10};'})
+            acts.append({"id": f"a{j}", "uses": gen.IRQ, "key": f"k{j}", "inputs": {"stage": "{{ $env.stage }}", "e1": "{{ $env.e1 }}"}})
+            steps.append({"id": f"s{j}", "acts": acts})
+        w = {"id": "m1", "env": {"stage": "draft", "e1": rng.below(9)}, "outputs": {"stage": "{{ $env.stage }}"}, "steps": steps}
+        ops = [["deploy", 0], ["start", "m1", {"pid": "p1"}], ["runall"]]
+        for j in range(nsteps + 1):
+            if rng.chance(1, 2):
+                ops.append(["tick", 1000])
+                ops.append(["runall"])
+            ops.append(["act", "next", "p1", {"open": 0}, {"n1": rng.below(90)}])
+            ops.append(["runall"])
+        return w, {}, ops, rng
     if i % 12 == 9:
         # chains of generated acts with three and more links (sequence over 3..5 values, 1..3 acts per group), reloaded at every quiescent point
         nv = rng.range(3, 5)
@@ -157,7 +177,7 @@ def run(ctx):
         cuts = set(rng.shuffle(quiescent)[:ncut])
         if len(ops) > 40:
             cuts.add(quiescent[len(quiescent) - 1 - rng.below(5)])
-        if i % 6 == 5 or i % 12 == 2 or i % 12 == 9:
+        if i % 6 == 5 or i % 12 == 2 or i % 12 == 9 or i % 12 == 4:
             cuts = set(quiescent)      # the catch family and the timeout family are reloaded at every quiescent point
         cfg = {"keep": True, "store": store, "dump_each": True}
         a = {"id": f"c12-{i}-A", "config": cfg, "models": [w], "ops": ops, "exprs": exprs}
